@@ -1,6 +1,7 @@
 (* C19 - Triangles cover their interior and polylines are the union of their segments.
    Statements only; every proof is `exact <lemma>` from Proofs/Polyline.v / Proofs/Triangle.v. *)
-From EG Require Import Base.Prelude Model.Geometry Model.Line Model.Polyline Model.Triangle Proofs.Geometry Proofs.TriLine Proofs.Polyline Proofs.Triangle.
+From EG Require Import Base.Prelude Model.Geometry Model.Line Model.Style Model.Polyline Model.Triangle Model.Tristyled
+  Proofs.Geometry Proofs.TriLine Proofs.Polyline Proofs.Triangle Proofs.Tristyled.
 From Coq Require Import Sorting.Sorted.
 
 (* ---- polylines --------------------------------------------------------------------------- *)
@@ -27,6 +28,18 @@ Proof. exact polyline_translate_field. Qed.
 Theorem C19_polyline_translate_points : forall pl d,
   polyline_points (polyline_translate pl d) = map (fun p => padd p d) (polyline_points pl).
 Proof. exact polyline_translate_points. Qed.
+
+(* the one pixel wide Styled<Polyline> (Model/Tristyled.v: pixels() and the single draw_iter of draw()): the same list in
+   the stroke colour - the union of the segment lines, shared joints emitted once *)
+Theorem C19_polyline_w1_pixels : forall st pl c, stroke_color st = Some c -> stroke_width st = 1 ->
+  poly_styled_pixels_thin st pl =
+  map (fun p => (p, c))
+    match segments (shift (pl_translate pl) (pl_vertices pl)) with
+    | [] => []
+    | s :: r => line_points s ++ flat_map (fun l => List.tl (line_points l)) r
+    end /\
+  poly_draw_styled_thin st pl = poly_styled_pixels_thin st pl.
+Proof. exact poly_w1_pixels. Qed.
 
 (* non-vacuity: a polyline with a repeated vertex and a reversal *)
 Example C19_polyline_example :
